@@ -9,6 +9,7 @@ from __future__ import annotations
 import json
 import os
 import queue
+import shutil
 import subprocess
 import sys
 import threading
@@ -25,10 +26,20 @@ class HarnessError(Exception):
 
 class Server:
     def __init__(self, name, env_extra, par, job_timeout, results_q):
-        env = dict(os.environ)
+        # A canonical, minimal environment: the interpreter copies the environment block
+        # into objects at start-up, so its size and content shift every later heap address;
+        # with address randomisation off, a world's memory layout is then a function of the
+        # tree under test, the server's declared variant and the job alone -- the same in the
+        # check run and in `./verif replay`.
+        env = {
+            "PATH": "/usr/local/sbin:/usr/local/bin:/usr/sbin:/usr/bin:/sbin:/bin",
+            "HOME": "/root", "LANG": "C.UTF-8",
+            "VERIF_REPO": os.environ.get("VERIF_REPO", "/repo"),
+            "VERIF_SERVER_QUIET": os.environ.get("VERIF_SERVER_QUIET", "1"),
+        }
         env.update({k: str(v) for k, v in env_extra.items()})
-        env["VERIF_SERVER_PAR"] = str(par)
-        env["VERIF_JOB_TIMEOUT"] = str(job_timeout)
+        env["VERIF_SERVER_PAR"] = "%03d" % int(par)
+        env["VERIF_JOB_TIMEOUT"] = "%07d" % int(job_timeout)
         env.setdefault("PYTHONHASHSEED", "0")
         env["PYTHONDONTWRITEBYTECODE"] = "1"
         self.name = name
@@ -37,8 +48,25 @@ class Server:
         self.ready = threading.Event()
         self.info = None
         stderr = None if os.environ.get("VERIF_SERVER_QUIET", "1") == "0" else subprocess.DEVNULL
+        # Memory layout is a source of nondeterminism the properties can depend on (sets and
+        # dicts of identity-hashed objects iterate in address order).  Address-space
+        # randomisation is therefore switched off for the worlds (setarch -R), so that a
+        # world's addresses are a function of its environment and history only and a replay
+        # sees the same layout; variation is injected deliberately instead (hash seed,
+        # allocator, seeded junk allocation before reference runs, heap perturbation ops).
+        cmd = [PYTHON, os.path.join(HERE, "server.py")]
+        setarch = shutil.which("setarch")
+        if setarch and os.environ.get("VERIF_ASLR", "off") == "off":
+            try:
+                probe = subprocess.run([setarch, os.uname().machine, "-R", "true"],
+                                       capture_output=True, timeout=20)
+                if probe.returncode == 0:
+                    cmd = [setarch, os.uname().machine, "-R"] + cmd
+            except (OSError, subprocess.SubprocessError):
+                pass
+        self.aslr_off = cmd[0] != PYTHON
         self.proc = subprocess.Popen(
-            [PYTHON, os.path.join(HERE, "server.py")],
+            cmd,
             stdin=subprocess.PIPE, stdout=subprocess.PIPE, stderr=stderr,
             env=env, cwd=VERIF_ROOT,
         )
